@@ -13,6 +13,7 @@ func vnondetInt64() int64         { return 0 }
 func vnondetUint64() uint64       { return 0 }
 func vnondetUint32() uint32       { return 0 }
 func vnondetFloat64() float64     { return 0 }
+func vnondetFloat32() float32     { return 0 }
 func vnondetString(max int) string { return "" }
 func vnondetStringN(n int) string { return "" }
 func vchoose(n int) int           { return 0 }
@@ -27,6 +28,7 @@ func vnative() bool               { return false }
 func vconcretize(x int) int       { return x }
 func vfail(msg string)            {}
 func vthorough() bool             { return false }
+func vuf32(tag string, d float64) float32 { return float32(d) }
 func vand(a, b bool) bool         { return a && b }
 func vor(a, b bool) bool          { return a || b }
 func vimplies(a, b bool) bool     { return !a || b }
@@ -120,6 +122,7 @@ func vnondetInt64() int64     { return int64(vnext("int64")) }
 func vnondetUint64() uint64   { return vnext("uint64") }
 func vnondetUint32() uint32   { return uint32(vnext("uint32")) }
 func vnondetFloat64() float64 { return math.Float64frombits(vnext("float64")) }
+func vnondetFloat32() float32 { return math.Float32frombits(uint32(vnext("float32"))) }
 func vnondetString(max int) string {
 	n := int(vnext("len"))
 	return vnondetStringN(n)
@@ -212,6 +215,7 @@ func vnative() bool         { return true }
 func vconcretize(x int) int { return x }
 func vfail(msg string)      { fmt.Println("VFAIL " + msg) }
 func vthorough() bool       { return os.Getenv("VERIF_TIER") == "thorough" }
+func vuf32(tag string, d float64) float32 { return float32(d) }
 func vand(a, b bool) bool   { return a && b }
 func vor(a, b bool) bool    { return a || b }
 func vimplies(a, b bool) bool { return !a || b }
